@@ -393,7 +393,8 @@ class C03Prop(HistProp):
         if not qs or nodes is None or edges is None:
             return []
         directed = c["spec"][0]
-        weighted = bool(qs[0][2][1] if qs[0][1] == "alg_sssp" else qs[0][2][0])
+        wq = [q for q in qs if q[1] != "alg_nbrs"]
+        weighted = bool((wq[0][2][1] if wq[0][1] == "alg_sssp" else wq[0][2][0]) if wq else 0)
         w = {}
         for e in edges:
             u, v, wf_, wt = e[0], e[1], e[2], e[3]
@@ -418,6 +419,19 @@ class C03Prop(HistProp):
                 res = obs[at]
                 at += 1
             name = op[1]
+            if name == "alg_nbrs":
+                x = op[2][0]
+                if x not in idx:
+                    continue        # no error channel: only called meaningfully on existing names
+                if code != 0:
+                    msgs.append("get_successors_or_neighbors(%d) panicked on an existing node" % x)
+                    continue
+                want = sorted(set([e[1] for e in edges if e[0] == x] +
+                                  ([] if directed else [e[0] for e in edges if e[1] == x])))
+                if sorted(res[1][0] if res[1] else []) != want:
+                    msgs.append("traversal neighbours of %d are %s, the stored edges give %s (a self-loop makes a node "
+                                "its own neighbour)" % (x, sorted(res[1][0] if res[1] else []), want))
+                continue
             if name == "alg_sssp":
                 x = op[2][0]
                 if x not in idx:
